@@ -139,20 +139,13 @@ func (m *Manager) Allocate(ctx context.Context, cni *daemon.CNI, req *AllocReque
 	defer cancel()
 
 	go func() {
-		// start a goroutine to collect the result
-		for {
-			select {
-			case <-ctx.Done():
-				close(done)
-				return
-			case resp, ok := <-resultCh:
-				if !ok {
-					close(done)
-					return
-				}
-				result = append(result, resp...)
-			}
+		// start a goroutine to collect the result. It only stops when resultCh is closed:
+		// everything an interface has handed over must reach the caller, which rolls it
+		// back when the request fails, even if ctx is done by then.
+		for resp := range resultCh {
+			result = append(result, resp...)
 		}
+		close(done)
 	}()
 
 	wg := sync.WaitGroup{}
@@ -212,10 +205,7 @@ func (m *Manager) Allocate(ctx context.Context, cni *daemon.CNI, req *AllocReque
 					break
 				}
 
-				select {
-				case <-ctx.Done():
-				case resultCh <- resp.NetworkConfigs:
-				}
+				resultCh <- resp.NetworkConfigs
 			}
 		}()
 	}
